@@ -11,7 +11,7 @@ FEATURES = [{'gen'}, {'rec'}, {'gen', 'rec'}, {'co'}, set(), {'gen', 'co'}, {'mu
 
 
 def run(tier, seed):
-    res = e1common.run_property(PROP, MODULE, THEOREMS, tier, seed, 160, 6000, FEATURES, 'time', ticks=(0, 1, 7), extra_cases=[e1common.FIXED_RECURSION])
+    res = e1common.run_property(PROP, MODULE, THEOREMS, tier, seed, 160, 30000, FEATURES, 'time', ticks=(0, 1, 7), extra_cases=[e1common.FIXED_RECURSION])
     res.assumptions.append('CLOCK_MONOTONIC is replaced by the shim: the real clock is not exercised (partial)')
     return res
 
